@@ -158,7 +158,7 @@ def run(tier, seed, compile_limit=None):
     samples = []
 
     def bad(key, **kw):
-        if len(violations) < 20:
+        if len(violations) < 400:
             violations.append({"case_key": key, **kw})
 
     for g in graphs(4, tier):
@@ -231,7 +231,7 @@ def run(tier, seed, compile_limit=None):
                 f"repeats and self-loops) and a slice of the 4-node ones ({n_graph} graphs) against the contract no-dup/complete/order/cycles with a DFS "
                 "cycle oracle; sort_classes + add_kernels on real classes of every kind (fieldless struct with dependents, chain, array/ref/union, "
                 f"_depends_on, diamond, 2-/3-/self-cycles) for several root subsets and orders ({ncomp} compiled); distinct by graph / (kind, roots)",
-        "exhaustive": True, "violations": violations[:5], "samples": samples,
+        "exhaustive": True, "violations": _by_key(violations), "samples": samples,
     }
 
 
@@ -245,3 +245,11 @@ def _closure(roots):
         seen[id(c)] = c
         todo += deps_of(c)
     return list(seen.values())
+
+
+def _by_key(violations, cap=12):
+    """one representative per case key (known findings must not crowd out new violations)"""
+    seen = {}
+    for v in violations:
+        seen.setdefault(v.get("case_key"), v)
+    return list(seen.values())[:cap]
